@@ -103,6 +103,7 @@ type c03Case struct {
 	Entries   []string `json:"hosts"` // $P = grid port
 	User      string   `json:"user"`
 	TokenAuth bool     `json:"token_auth"`
+	NoVerify  bool     `json:"verify_client_ip_off,omitempty"` // token auth with the client-address check switched off: the host policy applies all the same
 	TokenHost string   `json:"token_host"` // template; "=" means: the requested host:port itself
 	Name      []uint16 `json:"name_utf16"` // raw UTF-16 units of the server name field (terminator included if any)
 	Odd       bool     `json:"odd_length"` // one extra byte appended
@@ -138,12 +139,13 @@ func genC03(t *rapid.T) c03Case {
 		c.Entries = append(c.Entries, rapid.SampledFrom(c03Entries).Draw(t, "entry"))
 	}
 	c.TokenAuth = rapid.Bool().Draw(t, "tokenAuth")
+	c.NoVerify = c.TokenAuth && rapid.IntRange(0, 2).Draw(t, "noVerifyIP") == 0
 	return genC03Req(t, c)
 }
 
 // genC03Req draws the request part for a given configuration (Mode, Entries, TokenAuth).
 func genC03Req(t *rapid.T, cfg c03Case) c03Case {
-	c := c03Case{Mode: cfg.Mode, Entries: cfg.Entries, TokenAuth: cfg.TokenAuth, Kind: genKind(t)}
+	c := c03Case{Mode: cfg.Mode, Entries: cfg.Entries, TokenAuth: cfg.TokenAuth, NoVerify: cfg.NoVerify, Kind: genKind(t)}
 	c.User = rapid.SampledFrom([]string{"", "1", "2", "4", "7", "9", "1", "al ice", "bob@example.com", "{{x}}", "1:7"}).Draw(t, "user")
 	// base: one of the entries as the user sees it
 	base := rapid.SampledFrom(c.Entries).Draw(t, "base")
@@ -412,7 +414,7 @@ func c03Opts(c c03Case, P int) gwOpts {
 	for _, e := range c.Entries {
 		hosts = append(hosts, strings.ReplaceAll(strings.ReplaceAll(e, "$P", strconv.Itoa(P)), "$Q", strconv.Itoa(P+1)))
 	}
-	return gwOpts{TokenAuth: c.TokenAuth, HostSelection: c.Mode, Hosts: hosts, VerifyIP: true}
+	return gwOpts{TokenAuth: c.TokenAuth, HostSelection: c.Mode, Hosts: hosts, VerifyIP: !c.NoVerify}
 }
 
 func classifyC03(c c03Case) (bool, []string) {
@@ -437,7 +439,7 @@ type c03Bin struct {
 func TestC03_BIN(t *testing.T) {
 	runProp(t, "C03_BIN", func(t *rapid.T) c03Bin {
 		full := genC03(t)
-		b := c03Bin{Cfg: c03Case{Mode: full.Mode, Entries: full.Entries, TokenAuth: full.TokenAuth}, Batch: []c03Case{full}}
+		b := c03Bin{Cfg: c03Case{Mode: full.Mode, Entries: full.Entries, TokenAuth: full.TokenAuth, NoVerify: full.NoVerify}, Batch: []c03Case{full}}
 		for i, n := 0, rapid.IntRange(0, 14).Draw(t, "batch"); i < n; i++ {
 			b.Batch = append(b.Batch, genC03Req(t, b.Cfg))
 		}
